@@ -415,14 +415,57 @@ func (c *Ctx) c02OnOff() error {
 }
 
 func runC02(c *Ctx) error {
-	c.Rep.Rule = "opt: random instruction lists (0..13 instructions over the window opcodes, fused opcodes and neutral ones; operands chosen so that guards sometimes hold) x 1,2,3 passes; rule-on-real-vm: each of the 16 rule windows vs its fused form executed by the real VM on random locals/stack drawn from 14 value kinds; optimizer-off-vs-on: every distinct string literal of /repo/*_test.go + a regression corpus + generated programs; distinct = distinct line/seed/input; non-trivial = a rule fired / the window ran without error / the input tokenizes and parses"
+	c.Rep.Rule = "opt: random instruction lists (0..13 instructions over the window opcodes, fused opcodes and neutral ones; operands chosen so that guards sometimes hold) x 1,2,3 passes; rule-on-real-vm: each of the 16 rule windows vs its fused form executed by the real VM on random locals/stack drawn from 14 value kinds; optimized-leaves-assembly: random control skeletons (C06's generator), the real optimizer-on function body vs the model's assembly from model-optimized leaves; optimizer-off-vs-on: every distinct string literal of /repo/*_test.go + a regression corpus + generated programs; distinct = distinct line/seed/input; non-trivial = a rule fired / the window ran without error / the input tokenizes and parses"
 	if err := c.c02Opt(); err != nil {
 		return err
 	}
 	if err := c.c02Rules(); err != nil {
 		return err
 	}
-	return c.c02OnOff()
+	if err := c.c02OnOff(); err != nil {
+		return err
+	}
+	return c.c02Whole()
+}
+
+// c02Whole ties the object of opt_transparent to the real compiler: for control skeletons (the generator of C06:
+// if / for / switch / range / break / continue / return at random nesting) the function body the REAL compiler emits
+// with the optimizer ON equals the model's assembly from the model-optimized UNoptimized leaves
+// (Goat.CF.optLeaves; JUMP 0 read as PASS)
+func (c *Ctx) c02Whole() error {
+	n := 150
+	if c.Thorough() {
+		n = 6000
+	}
+	var lines, impl []string
+	for i := 0; i < n; i++ {
+		g := &cfGen{r: c.RNG}
+		s := g.gen(2+c.RNG.Intn(4), false).guard()
+		save := c.Rep
+		c.Rep = NewReport("scratch", c.Tier, c.Seed) // c06One's own oracle belongs to C06's evidence
+		l, im := c.c06One(s, false)
+		c.Rep = save
+		for k := range l {
+			if strings.HasPrefix(l[k], "cf optleaves ") {
+				lines = append(lines, l[k])
+				impl = append(impl, im[k])
+			}
+		}
+	}
+	if c.Model == nil {
+		return nil
+	}
+	ans, err := c.Model.AskAll(lines)
+	if err != nil {
+		return err
+	}
+	for i, a := range ans {
+		c.Rep.Corr["optimized-leaves-assembly"]++
+		if a != impl[i] {
+			c.Rep.Violate(Violation{Kind: "correspondence", Cut: "optimized-leaves-assembly", Input: lines[i], Impl: impl[i], Model: a})
+		}
+	}
+	return nil
 }
 
 // safeOptimize runs the real peephole pass under recover (the verif hook calls doOptimize directly, outside
